@@ -32,6 +32,7 @@ def run(repo, chk, tier):
     fn = repo.func(CR, 'compute_combined_features')
     m = fn.module
     frame, args = fn.params[0], fn.params[1]
+    row_labels(repo, chk, fn, frame)
     ok = path_model(repo, chk, fn, frame, args)
     if not ok:
         # the per-combination computation could not be written as one expression: fall back to the closure-shaped rules
@@ -45,6 +46,40 @@ def run(repo, chk, tier):
         name_and_space(repo, chk, fn, comb, frame, args)
     append_only(repo, chk, fn, frame)
     relabelling(repo, chk, fn, frame)
+
+
+def row_labels(repo, chk, fn, frame):
+    """C10.6 - the interaction columns are attached to the frame by ROW LABEL (pd.concat(.., axis=1) of a frame built from the new columns), so every
+    new column must still carry the frame's index: element-wise string operations, .apply / .map keep it; a list comprehension, list(), .tolist(),
+    .values, np.array over the joint values drop it, and the new columns then get a fresh 0..n-1 index - on a frame whose index is not 0..n-1 the
+    values land on other rows (or add rows).  Decided over compute_combined_features and its closures."""
+    m = fn.module
+    scopes = [fn] + [f for q, f in m.funcs.items() if q.startswith(fn.qualname + '.')]
+    # is the new-columns frame built with an explicit index?
+    explicit_index = any(isinstance(c, ast.Call) and (m.dotted(c.func) or '') in ('pandas.DataFrame', 'pandas.Series') and any(k.arg == 'index' for k in c.keywords) for f in scopes for c in ast.walk(f.node))
+    positional = any(isinstance(n, ast.Assign) and any(isinstance(t, ast.Subscript) and isinstance(t.value, ast.Name) and t.value.id == frame for t in n.targets) for f in scopes for n in own_nodes(f.node))
+    hit = None
+    for f in scopes:
+        series = set()
+        for n in sorted((x for x in own_nodes(f.node) if isinstance(x, ast.Assign)), key=lambda x: (x.lineno, x.col_offset)):
+            if isinstance(n, ast.Assign) and len(n.targets) == 1 and isinstance(n.targets[0], ast.Name):
+                v = n.value
+                reads_series = any(isinstance(x, ast.Name) and x.id in series for x in ast.walk(v))
+                from_frame = any(isinstance(x, ast.Subscript) and isinstance(x.value, ast.Name) and x.value.id == frame for x in ast.walk(v)) or \
+                    any(isinstance(x, ast.Call) and isinstance(x.func, ast.Name) and (fn.qualname + '.' + x.func.id) in m.funcs for x in ast.walk(v))
+                drops = isinstance(v, (ast.ListComp, ast.List)) or (isinstance(v, ast.Call) and ((isinstance(v.func, ast.Name) and v.func.id in ('list', 'tuple')) or (m.dotted(v.func) or '') in ('numpy.array', 'numpy.asarray')
+                                                                                                 or (isinstance(v.func, ast.Attribute) and v.func.attr in ('tolist', 'to_numpy', 'to_list')))) or \
+                    (isinstance(v, ast.Attribute) and v.attr == 'values')
+                if drops and reads_series and n.targets[0].id in series:
+                    hit = (f, n)
+                elif from_frame or reads_series:
+                    series.add(n.targets[0].id)
+    if hit is not None and not explicit_index and not positional:
+        f, n = hit
+        chk.bad('C10.6', 'R6', f.site(n), ast.unparse(n).replace('\n', ' ')[:120], f'`{n.targets[0].id}` held a Series with the frame\'s row labels and is re-bound to a plain list / array: the new columns get a fresh 0..n-1 index and '
+                'are attached by row label, so on a frame whose index is not 0..n-1 the interaction values land on other rows (or rows are added) - the joint value no longer belongs to the row it was built from')
+    else:
+        chk.ok('C10.6', 'R6', fn.site(), 'row labels of the interaction columns', 'the interaction columns keep the row labels of the frame they are attached to')
 
 
 def relabelling(repo, chk, fn, frame):
